@@ -26,7 +26,7 @@ RULE = ('precedence: for each of 12 keys (9 documented, 3 unknown) a seeded choi
         'or a prefix matched; distinct by canonical case')
 ASSUMPTIONS = ['prefix items are non-empty and contain no comma', 'equality of poll cadence is judged in logical terms '
                '(timer thread alive and >= 3 polls within a generous watchdog), not by wall-clock period']
-REQUIRE = {'two_start_sessions': 5, 'late_environment_reads': 30, 'function_settings_read_twice': 4, 'precedence_reads': 400, 'behaviour_sessions': 20, 'classifications': 5000, 'prefix_matched': 1500,
+REQUIRE = {'two_start_sessions': 5, 'late_environment_reads': 30, 'function_settings_read_twice': 4, 'precedence_reads': 400, 'behaviour_sessions': 20, 'classifications': 5000, 'classified_after_other_files': 1500, 'prefix_matched': 1500,
            'exclusion_won': 200, 'reclassified_snapshots': 40, 'hosts_with_unnormalised_file_names': 3}
 SHARD_TIMEOUT = {'quick': 400, 'thorough': 2400}
 
@@ -447,8 +447,8 @@ def child_behaviour(arg):
 
 # ---------------------------------------------------------------- (c) classification
 ROOTS = ['/srv/app', '/srv/app/pkg', '/srv/app/pkg/sub', '/srv/other', '/opt/lib/site-packages', '/srv/app2',
-         '/srv/ap', '/home/u/proj']
-FILES = ['main.py', 'pkg/mod.py', 'pkg/sub/deep.py', 'x.py', 'site-packages/lib/a.py']
+         '/srv/ap', '/home/u/proj', '/srv/app/pkg/mo']     # (a prefix is text: it may end inside a file name)
+FILES = ['main.py', 'pkg/mod.py', 'pkg/sub/deep.py', 'x.py', 'site-packages/lib/a.py', 'pkg/other.py']
 
 
 def case_classify(seed, out, spec):
@@ -475,11 +475,22 @@ def case_classify(seed, out, spec):
     else:
         custom['IN_APP_INCLUDE'] = (lambda v: (lambda: list(v)))(inc)
         custom['IN_APP_EXCLUDE'] = (lambda v: (lambda: list(v)))(exc)
-    app, shorts = app_rule_for(app_root, inc, exc)(path)
     replay = replay_spec(spec, seed)
     witness = {'path': path, 'include': inc, 'exclude': exc, 'app_root': app_root, 'form': form}
+    service = ConfigService(custom)
+    if r.chance(0.4):
+        # the same configuration has classified other files before (of the same directory, among others)
+        earlier = [root + '/' + r.pick(FILES) for _ in range(r.randrange(1, 3))]
+        witness['classified_before'] = earlier
+        try:
+            for p_ in earlier:
+                service.is_app_frame(p_)
+        except BaseException:  # noqa
+            pass
+        out.count('classified_after_other_files')
+    app, shorts = app_rule_for(app_root, inc, exc)(path)
     try:
-        got_app, match = ConfigService(custom).is_app_frame(path)
+        got_app, match = service.is_app_frame(path)
     except BaseException as e:  # noqa
         out.violation('classify:raised', 'is_app_frame(%r) raised %r' % (path, e), witness, replay)
         return
